@@ -90,3 +90,6 @@ class ConcreteCtx(BaseCtx):
 
     def deep_pin(self, x, where=""):
         return x
+
+    def pin_all(self, where=""):
+        pass
